@@ -156,7 +156,7 @@ class RegStr:
                     break
             if n is None:
                 v = core.CUR.fresh_int("hexlen")
-                core.CUR.add(v >= 0)
+                core.CUR.add(core.z3.And(v >= 0, v < 2 ** 40))      # every byte string is shorter than 2^53 (DESIGN 3.2)
                 n = core.SymInt(v)
             self._nbytes = n
         return BApp("fromhex", ["token:" + self.name + ":" + str(id(self))], n)
